@@ -12,6 +12,7 @@ operation, so the global order of atomic steps is the operation list.
 from __future__ import annotations
 
 import contextvars
+import os
 import math
 import sys
 import typing
@@ -342,18 +343,9 @@ class Kernel:
 
     @staticmethod
     def rt_name(e: RuntimeError) -> str:
-        m = str(e)
-        if "not been entered" in m:
-            return "runtimeError inactive"
-        if "already been entered" in m:
-            return "runtimeError open"
-        if "already been closed" in m:
-            return "runtimeError closed"
-        if "being torn down" in m:
-            return "runtimeError closing"
-        if "stack corruption" in m:
-            return "corruption"
-        return "runtimeError ?" + m
+        # an operation refused because of the context's lifecycle state; the wording of the message (which names
+        # the state) is not behaviour
+        return "runtimeError"
 
     # ------------------------------------------------------------------ @inject
     ANNOT = {
@@ -417,8 +409,8 @@ class Kernel:
                 ac.inject(fn)
             except TypeError:
                 return ["typeError"]
-        if any("injectable resources" in str(w.message) for w in wlist):
-            return ["warnNoInject"]
+        if any(f"{os.sep}asphalt{os.sep}" in (w.filename or "") for w in wlist):
+            return ["warnNoInject"]       # inject() warns (whatever the wording) when there is nothing to inject
         return ["ok"]
 
     @staticmethod
@@ -679,7 +671,9 @@ class Worker:
                     raise
                 if type(e).__name__ in ("Cancelled", "CancelledError") and exitcmd is None:
                     raise
-                if isinstance(e, RuntimeError) and "stack corruption" in str(e):
+                if type(e) is RuntimeError:
+                    # a plain RuntimeError from __aexit__ itself (user code raises the harness's own classes): the
+                    # context was left while a child context entered from it was still open
                     outcome = "corruption"
                 else:
                     ls = leaves(e)
